@@ -46,7 +46,11 @@ import term_image.image.common as _cmod  # noqa: E402
 KINDS = ["kitty", "konsole", "wezterm", "iterm2", "other"]
 HA = {"L": "LEFT", "C": "CENTER", "R": "RIGHT"}
 VA = {"T": "TOP", "M": "MIDDLE", "B": "BOTTOM"}
-FILLS = {"gB": " ", "gC35": "#", "-": "", "gC46": ".", "gC9617": "░"}
+# the fill alphabet: '' and ' ', ordinary characters, and every kind of metacharacter a fill could meet on its way
+# through string formatting (printf %, str.format braces, backslash, regex/template characters), multi-byte ones too.
+# `Padding` accepts any string as fill (no validation); the property speaks of single-column fills.
+META_FILLS = ["%", "{", "}", "\\", "$", "*", "█", "·"]
+FILLS = {"gB": " ", "gC35": "#", "-": "", "gC46": ".", "gC9617": "░", **{f"gC{ord(c)}": c for c in META_FILLS}}
 _c01 = C01()
 
 
@@ -168,7 +172,7 @@ def fmt_padding(p: Padding) -> str:
 
 
 def random_padding(rng: random.Random, rw: int, rh: int, tw: int, th: int) -> dict:
-    fill = rng.choice(["gB", "gB", "gC35", "-", "-", "gC46", "gC9617"])
+    fill = rng.choice(["gB", "gB", "gC35", "-", "-", "gC46", "gC9617"] + [f"gC{ord(c)}" for c in META_FILLS])
     if rng.random() < 0.6:
         def dim(r, term):
             return rng.choice([r - 1, r, r + 1, r + 2, r + 3, rng.randrange(-3, 9), 0, -1, -term, 1 - term,
